@@ -3,6 +3,7 @@ package main
 import (
 	"fmt"
 	"go/token"
+	"sort"
 	"strings"
 
 	"golang.org/x/tools/go/ssa"
@@ -12,7 +13,7 @@ func init() {
 	register(&Prop{
 		ID:         "C13",
 		Title:      "Primary keys identify items faithfully and are enforced",
-		Decided:    "(R1) the function that renders a composite key must use an injective encoding (per-component quoting/escaping of the separator, a length prefix, or %q): joining raw renderings with a constant separator that can occur inside a component is recognised as the non-injective idiom; (R2) at every call site of keySchema.GetKey the error result is extracted and tested (the only accepted discard is the sparse-index case inside GetKey itself); (R3) in the key-attribute accessors the case for type label X returns field X of the attribute and tests presence of that same field, and a value is produced only on the present∧typed edges; (R4) UpdateItem re-derives the key of the updated item before committing and rejects a change; (R5) GetItem/Delete/Update address Table.Data with the key derived from the request's Key by the table's own schema (shared with C01.R3); (R6) no function on the key derivation path rounds, trims, folds or re-formats a component (shared with C01.R8): two different key values never become one key string.",
+		Decided:    "(R1) the function that renders a composite key must use an injective encoding (per-component quoting/escaping of the separator, a length prefix, or %q): joining raw renderings with a constant separator that can occur inside a component is recognised as the non-injective idiom; (R2) at every call site of keySchema.GetKey the error result is extracted and tested (the only accepted discard is the sparse-index case inside GetKey itself); (R3) in the key-attribute accessors the case for type label X returns field X of the attribute and tests presence of that same field, and a value is produced only on the present∧typed edges; (R4) UpdateItem re-derives the key of the updated item before committing and rejects a change; (R5) GetItem/Delete/Update address Table.Data with the key derived from the request's Key by the table's own schema (shared with C01.R3); (R6) no function on the key derivation path rounds, trims, folds or re-formats a component (shared with C01.R8): two different key values never become one key string; (R7) the declared type of an attribute decides how its key text is built and which requests are well typed: every write into Table.AttributesDef that a client operation other than table creation can reach is guarded by a test that the attribute is not defined yet.",
 		NotDecided: "that the rendering of each single component is itself injective per type (%v of a string, of a number literal: see C12 for numerals); attribute types that DynamoDB does not allow as keys.",
 		Rules: []RuleDef{
 			{ID: "R1", Desc: "composite key encoding is injective (idiom rule on the key-rendering function)", Run: c13R1},
@@ -45,6 +46,7 @@ func init() {
 				}
 				e.minCount("R5", 6)
 			}},
+			{ID: "R7", Desc: "the declared type of a defined attribute never changes after table creation (T-FIELD + guard)", Run: c13R7},
 			{ID: "R6", Desc: "each key component is rendered without loss: no rounding, trimming or folding on the key derivation path (= C01.R8)", Run: func(e *Engine) {
 				before := len(e.obs)
 				c01R8(e)
@@ -382,3 +384,90 @@ func c13R4(e *Engine) {
 }
 
 var _ = fmt.Sprint
+
+// c13R7: the key strings of the stored items were built under the declared attribute types. An operation on an existing
+// table that overwrites a definition (UpdateTable carrying the AddIndex helper's all-S definitions for an N key) makes
+// well-typed requests fail validation and stored items unreachable.
+func c13R7(e *Engine) {
+	f := e.field("core", "Table", "AttributesDef")
+	if !e.anchor("R7", "core.Table.AttributesDef", f == nil) {
+		return
+	}
+	n := 0
+	for _, fn := range e.funcs("core") {
+		instrs(fn, func(in ssa.Instruction) {
+			mu, ok := in.(*ssa.MapUpdate)
+			if !ok {
+				return
+			}
+			if lf, _ := loadedField(mu.Map); lf != f {
+				return
+			}
+			n++
+			construct := e.fname(fn) + ":attribute-type-immutable"
+			guarded := false
+			for _, cd := range condsAt(in.Block()) {
+				cd = normCond(cd)
+				ex, ok := cd.V.(*ssa.Extract)
+				if !ok || ex.Index != 1 || cd.Val {
+					continue
+				}
+				lk, ok := ex.Tuple.(*ssa.Lookup)
+				if !ok {
+					continue
+				}
+				if lf, _ := loadedField(lk.X); lf == f && sameLoad(lk.Index, mu.Key) {
+					guarded = true
+				}
+			}
+			if guarded {
+				e.pass("R7", construct, e.ipos(in), "the definition is written only when the attribute is not defined yet")
+				return
+			}
+			// unguarded: acceptable only on the creation path
+			var from []string
+			for _, role := range clientRoles {
+				for name, m := range e.clientMethods(role) {
+					if m.Object() == nil || !m.Object().Exported() || strings.HasPrefix(name, "CreateTable") {
+						continue
+					}
+					if e.reach(m)[fn] {
+						from = append(from, role+"."+name)
+					}
+				}
+			}
+			sort.Strings(from)
+			if len(from) > 0 {
+				e.fail("R7", construct, e.ipos(in), "attribute definitions are overwritten unconditionally and this is reachable from %s: an operation on an existing table can change the declared type of its key attributes (AddIndex declares every key attribute as S), after which well-typed keys are rejected and stored items are unreachable", strings.Join(from, ", "))
+			} else {
+				e.pass("R7", construct, e.ipos(in), "unconditional definition, reachable from table creation only")
+			}
+		})
+	}
+	if n == 0 {
+		e.undecided("R7", "core:attribute-definitions", "-", "no write into Table.AttributesDef found")
+	}
+}
+
+// sameLoad: a and b are the same value or loads through the same address expression (*attr.AttributeName twice).
+func sameLoad(a, b ssa.Value) bool {
+	a, b = strip(a), strip(b)
+	if a == b {
+		return true
+	}
+	ua, ok1 := a.(*ssa.UnOp)
+	ub, ok2 := b.(*ssa.UnOp)
+	if !ok1 || !ok2 || ua.Op != token.MUL || ub.Op != token.MUL {
+		return false
+	}
+	return sameLoad(ua.X, ub.X) || sameAddr(ua.X, ub.X)
+}
+
+func sameAddr(a, b ssa.Value) bool {
+	fa, ok1 := a.(*ssa.FieldAddr)
+	fb, ok2 := b.(*ssa.FieldAddr)
+	if ok1 && ok2 {
+		return fa.Field == fb.Field && (fa.X == fb.X || sameLoad(fa.X, fb.X))
+	}
+	return false
+}
